@@ -1,6 +1,8 @@
 (** C09 — property theorems only. *)
 From Coq Require Import List NArith ZArith Bool.
 From C33 Require Import Lib.Bytes Lib.OMap C09.Model C09.Spec C09.ProofsKeys C09.ProofsDb C09.ProofsMain.
+From C33 Require Import C09.ModelExec C09.SpecExec C09.ProofsExec C09.ProofsExecWit.
+Import ListNotations.
 Open Scope Z_scope.
 
 (** GetV returns the most recent write to k at a version <= v (or not-found), never
@@ -51,3 +53,60 @@ Print Assumptions C09_refuted_getv.
 Theorem C09_refuted_trash : ~ C09_trash_full.
 Proof. exact refuted_trash. Qed.
 Print Assumptions C09_refuted_trash.
+
+(** * block execution: kvmvcc plugin + StateDB (ModelExec.v), plain KVDB layer *)
+
+(** after any node-shaped history of connected / disconnected blocks (fresh, safe state
+    hashes) nothing panicked, and a StateDB opened at the state hash of the block at height i
+    reads at version i and returns the latest write to k at or below height i on the current
+    chain — with the GetV guards (non-empty values, Safe1) on the current chain only *)
+Theorem C09_block_reads_correct_partial : forall sdb ops i hs ws k,
+  ops_okb ops = true -> Z.of_nat (length ops) < two63 ->
+  nonempty_values (chain_of ops) = true -> Safe1 (k :: keys_of (chain_of ops)) = true ->
+  block_at (chain_of ops) i = Some (hs, ws) ->
+  exists st, srun false sdb sinit ops = Done (st, chain_of ops) /\
+             sdb_read false (fst st) hs (i + 1) k = Done (i, spec_getv (chain_of ops) k i).
+Proof. exact block_reads_correct. Qed.
+Print Assumptions C09_block_reads_correct_partial.
+
+(** connecting a block and disconnecting it again restores every StateDB read (any safe state
+    hash, any context height, any key; no guard on keys or values) — when state hashes are fresh *)
+Theorem C09_disconnect_restores_partial : forall sdb ops hs ws st1 c1,
+  ops_okb (ops ++ [SConnect hs ws; SDisconnect]) = true ->
+  Z.of_nat (length ops) + 2 < two63 ->
+  srun false sdb sinit ops = Done (st1, c1) ->
+  exists st2, srun false sdb sinit (ops ++ [SConnect hs ws; SDisconnect]) = Done (st2, c1) /\
+    forall hash height k, hash_safe hash = true ->
+      sdb_read false (fst st2) hash height k = sdb_read false (fst st1) hash height k.
+Proof. exact disconnect_restores. Qed.
+Print Assumptions C09_disconnect_restores_partial.
+
+(** reads made while the next block is being connected (procExecAddBlock): enableMVCC(prev hash)
+    finds the height of the previous block, the block's own writes win, the rest is the state below *)
+Theorem C09_inblock_reads_partial : forall sdb ops hs ws k st,
+  ops_okb (ops ++ [SConnect hs ws]) = true -> Z.of_nat (length ops) + 1 < two63 ->
+  srun false sdb sinit ops = Done (st, chain_of ops) -> chain_of ops <> [] ->
+  nonempty_values (chain_of ops) = true -> Safe1 (k :: keys_of (chain_of ops)) = true ->
+  let b := (hlen (chain_of ops), hs, top_prev (chain_of ops), ws) in
+  exists st', connect false true st b = (st', 0%N, hlen (chain_of ops) - 1) /\
+              inblock_read (fst st) b (hlen (chain_of ops) - 1) k = spec_inblock_read (chain_of ops) ws k.
+Proof. exact inblock_reads. Qed.
+Print Assumptions C09_inblock_reads_partial.
+
+(** the fresh-hash guard is necessary: an empty block (state hash of its parent) connected and
+    removed leaves the parent's state unreadable (finding 3) *)
+Theorem C09_refuted_disconnect_restores : ~ C09_disconnect_restores_full.
+Proof. exact refuted_disconnect_restores. Qed.
+Print Assumptions C09_refuted_disconnect_restores.
+
+(** over the node's local layer (empty value = deleted) the statement fails (finding 4) ... *)
+Theorem C09_refuted_block_reads_local : ~ C09_block_reads_full.
+Proof. exact refuted_block_reads. Qed.
+Print Assumptions C09_refuted_block_reads_local.
+
+(** ... because the state of height 0 can never be opened there: block 1 cannot be connected *)
+Theorem C09_local_layer_stuck : forall hs0 ws0 hs1 ws1 rest,
+  hash_safe hs0 = true ->
+  srun true true sinit (SConnect hs0 ws0 :: SConnect hs1 ws1 :: rest) = Panic 1.
+Proof. exact local_layer_stuck. Qed.
+Print Assumptions C09_local_layer_stuck.
